@@ -1,5 +1,6 @@
 import KafVerif.Gen.C18LeaseOps
 import KafVerif.Model.LeaseOpsSpec
+import KafVerif.Lemmas.LeaseKey
 /-!
 C18, static tie.  `Gen/C18LeaseOps.lean` is regenerated from the CURRENT `lease_manager.go` by
 `checks/C18.py` (go/ast) before this file is built.
@@ -15,6 +16,11 @@ C18, static tie.  `Gen/C18LeaseOps.lean` is regenerated from the CURRENT `lease_
   `ins_step_denotes`         the model's steps ARE the etcd semantics (`execK`) of the transactions in the
                              table, for every state: the expected table cannot be edited to follow a
                              changed source without breaking these.
+* `lease_key_injective`, `lease_key_shape`, `partition_resource_id_injective`, `partition_lease_key_injective`
+                             the model names a resource by ONE abstract id in `owned` and in etcd; the key
+                             functions of the CURRENT source (`Gen.C18.leaseKeyExpr`, `partitionResourceIdExpr`,
+                             regenerated) are injective for ALL strings, so two different ids never share an etcd
+                             key; `lease_key_path_join_collides`: with `path.Join` they do (witness).
 -/
 namespace KafVerif.C18
 open KafVerif.SrcOps KafVerif.Lease KafVerif.LeaseOps
@@ -116,6 +122,70 @@ theorem inserts_guarded_sound (rows : List Row) (h : insertsGuarded rows = true)
   have := h r hr hi
   simp only [List.any_eq_true, List.contains_iff_mem] at this
   exact ⟨this.1.1, this.1.2, this.2⟩
+
+/-! ### the key functions (resource id → etcd key, topic/partition → resource id) -/
+
+open KafVerif.LeaseKey KafVerif.MetaKeys in
+theorem eval_inj_of_injectiveInId {e : KeyExpr} (h : injectiveInId e = true) (pfx a b : List Char) (n : Int)
+    (he : eval e pfx a n = eval e pfx b n) : a = b := by
+  cases e with
+  | concat ps => exact evalConcat_idOnce_inj h pfx a b n he
+  | pathJoin ps => simp [injectiveInId] at h
+  | other => simp [injectiveInId] at h
+
+open KafVerif.LeaseKey KafVerif.MetaKeys in
+theorem eval_inj_of_injectiveInBoth {e : KeyExpr} (h : injectiveInBoth e = true) (pfx t t' : List Char) (n n' : Int)
+    (he : eval e pfx t n = eval e pfx t' n') : t = t' ∧ n = n' := by
+  cases e with
+  | concat ps => exact evalConcat_sepSafe_inj h pfx t t' n n' he
+  | pathJoin ps => simp [injectiveInBoth] at h
+  | other => simp [injectiveInBoth] at h
+
+open KafVerif.LeaseKey KafVerif.MetaKeys in
+/-- **`leaseKey` of the current source is injective in the resource id — for ALL strings** (any prefix; group ids are
+not validated anywhere, so "all strings" is the quantifier that matters): two different entries of `owned` are never
+backed by the same etcd key, which is what lets the lease model use one name for both. -/
+theorem lease_key_injective (pfx a b : List Char) (n : Int)
+    (h : eval KafVerif.Gen.C18.leaseKeyExpr pfx a n = eval KafVerif.Gen.C18.leaseKeyExpr pfx b n) : a = b :=
+  eval_inj_of_injectiveInId (by decide) pfx a b n h
+
+open KafVerif.LeaseKey KafVerif.MetaKeys in
+/-- … and it is exactly `prefix ++ "/" ++ id`, the form the routers (C20) parse back -/
+theorem lease_key_shape : KafVerif.Gen.C18.leaseKeyExpr = leaseKeyHead := by decide
+
+open KafVerif.LeaseKey KafVerif.MetaKeys in
+/-- **`partitionResourceID` is injective in (topic, partition) for ALL topic strings** (the last separator splits) -/
+theorem partition_resource_id_injective (pfx t t' : List Char) (p p' : Int)
+    (h : eval KafVerif.Gen.C18.partitionResourceIdExpr pfx t p = eval KafVerif.Gen.C18.partitionResourceIdExpr pfx t' p') :
+    t = t' ∧ p = p' :=
+  eval_inj_of_injectiveInBoth (by decide) pfx t t' p p' h
+
+open KafVerif.LeaseKey KafVerif.MetaKeys in
+/-- the composition the partition manager uses: (topic, partition) ↦ etcd key is injective -/
+theorem partition_lease_key_injective (pfx t t' : List Char) (p p' : Int)
+    (h : eval KafVerif.Gen.C18.leaseKeyExpr pfx (eval KafVerif.Gen.C18.partitionResourceIdExpr [] t p) 0 =
+         eval KafVerif.Gen.C18.leaseKeyExpr pfx (eval KafVerif.Gen.C18.partitionResourceIdExpr [] t' p') 0) :
+    t = t' ∧ p = p' :=
+  partition_resource_id_injective [] t t' p p' (lease_key_injective pfx _ _ 0 h)
+
+open KafVerif.LeaseKey KafVerif.MetaKeys in
+/-- **witness: `path.Join(prefix, id)` is NOT injective** — it cleans the result, so ids that differ only in path noise
+share one etcd key (while staying separate entries of `owned`): releasing one deletes the key under the other. -/
+theorem lease_key_path_join_collides :
+    injectiveInId (.pathJoin [.pfx, .id]) = false ∧
+    eval (.pathJoin [.pfx, .id]) (str "/kafscale/group-leases") (str "team-a/ingest") 0 =
+      eval (.pathJoin [.pfx, .id]) (str "/kafscale/group-leases") (str "team-a//ingest") 0 ∧
+    eval (.pathJoin [.pfx, .id]) (str "/p") (str "g") 0 = eval (.pathJoin [.pfx, .id]) (str "/p") (str "g/") 0 ∧
+    eval (.pathJoin [.pfx, .id]) (str "/p") (str "") 0 = eval (.pathJoin [.pfx, .id]) (str "/p") (str ".") 0 ∧
+    eval (.pathJoin [.pfx, .id]) (str "/p") (str "a/b") 0 = eval (.pathJoin [.pfx, .id]) (str "/p") (str "x/../a/./b") 0 ∧
+    str "team-a/ingest" ≠ str "team-a//ingest" ∧ str "g" ≠ str "g/" ∧ str "" ≠ str "." := by decide
+
+-- non-vacuity: the keys of HEAD for the colliding ids differ; an id-free or id-twice expression is rejected
+open KafVerif.LeaseKey KafVerif.MetaKeys in
+example : eval leaseKeyHead (str "/p") (str "a/b") 0 = str "/p/a/b" ∧ eval leaseKeyHead (str "/p") (str "a//b") 0 = str "/p/a//b" ∧
+    eval partitionResourceIdHead [] (str "a/1") 0 = str "a/1/0" ∧ eval partitionResourceIdHead [] (str "a") (-3) = str "a/-3" ∧
+    injectiveInId (.concat [.pfx, .lit ['/']]) = false ∧ injectiveInId (.concat [.id, .id]) = false ∧
+    injectiveInBoth (.concat [.id, .part]) = false ∧ injectiveInBoth (.concat [.id, .lit ['1'], .part]) = false := by decide
 
 -- non-vacuity: the three compiled transactions do different things on the same state
 example : (execK ⟨1, 0, 0⟩ { init with live := fun _ => true } 0 ⟨[.absent], [.put], [.get]⟩).2 = .thenDone 1 := by decide +kernel
